@@ -39,12 +39,18 @@ D3 = ["sum2", "prod2", "floordiv", "rem", "neg", "cse", "if", "band2"]
 BOOLISH = set(skel.LOGIC + skel.CMPS)
 
 
+def is_boolish(c):
+    if skel.is_leaf(c):
+        return (c[0] == "v" and c[2] == "bool") or (c[0] == "c" and isinstance(c[1], bool))
+    return c[0] in BOOLISH or (c[0] == "if" and is_boolish(c[2]) and is_boolish(c[3]))
+
+
 def well_typed(d):
     if skel.is_leaf(d):
         return True
     k = skel.KINDS[d[0]]
     for st, c in zip(k.slots, d[1:]):
-        if st == "bool" and not skel.is_leaf(c) and c[0] not in BOOLISH:
+        if st == "bool" and not skel.is_leaf(c) and not is_boolish(c):
             return False
         if st == "bool" and c[0] == "c" and not isinstance(c[1], bool):
             return False
@@ -73,6 +79,15 @@ def items(tier):
                 ("sum2", v("x1"), ("lshift", v("x2"), v("s3", "shift"))),
                 ("sum2", ("cse", ("prod2", v("x1"), v("x2"))), ("cse", ("prod2", v("x1"), v("x2")))),
                 ("prod2", ("cse_pfx", ("sum2", v("x1"), v("x2"))), ("cse", ("sum2", ("cse_pfx", ("sum2", v("x1"), v("x2"))), v("x3")))),
+                # conditionals in every slot of a conditional (boolean-valued ones in the condition slot)
+                ("if", ("if", v("b1", "bool"), ("cmp_lt", v("x2"), v("x3")), ("cmp_eq", v("x4"), v("x5"))), v("x6"), v("x7")),
+                ("if", ("if", ("cmp_ne", v("x1"), v("x2")), v("b3", "bool"), v("b4", "bool")), ("sum2", v("x5"), ("c", 100)), v("x6")),
+                ("sum2", ("c", 1), ("prod2", ("if", ("if", v("b1", "bool"), v("b2", "bool"), ("cmp_gt", v("x3"), v("x4"))),
+                                                v("x5"), v("x6")), ("c", 2))),
+                ("if", v("b1", "bool"), ("if", v("b2", "bool"), v("x3"), v("x4")), v("x5")),
+                ("if", v("b1", "bool"), v("x2"), ("if", v("b3", "bool"), v("x4"), v("x5"))),
+                ("land2", ("if", v("b1", "bool"), v("b2", "bool"), v("b3", "bool")), v("b4", "bool")),
+                ("lnot", ("if", v("b1", "bool"), v("b2", "bool"), v("b3", "bool"))),
                 ("pow", v("x1"), ("c", 2)), ("pow", ("sum2", v("x1"), v("x2")), ("c", 2)), ("pow", v("x1"), ("c", 0)),
                 ("pow", v("x1"), ("c", 1)), ("pow", v("x1"), ("c", 3)), ("neg", ("pow", v("x1"), ("c", 2))),
                 ("prod2", ("c", -1), ("sum2", v("x1"), v("x2"))), ("sum2", v("x1"), ("neg", ("sum2", v("x2"), v("x3")))),
@@ -311,7 +326,10 @@ def check_history(i, tier):
     n2 = CSE(p.Sum((y, z, 1)))
     nested = CSE(p.Product((u, p.Sum((w, 2)))), "v")
     pool = [p.Sum((u, 1)), p.Product((u_eq, w)), p.Sum((n1, n2, u)), p.Product((nested, n1)), p.Sum((w, w, u)),
-            p.Quotient(nested, p.Sum((n2, 3)))]
+            p.Quotient(nested, p.Sum((n2, 3))),
+            # the same subexpression under wrappers that are not equal to u: other prefix, no prefix, other scope
+            p.Sum((CSE(p.Sum((x, y)), "other"), u)), p.Product((CSE(p.Sum((x, y))), 2)),
+            p.Sum((CSE(p.Sum((x, y)), "u", p.cse_scope.GLOBAL), 1))]
     ops = ["map", "copy", "copy_mapped"]
     seqs = list(itertools.product(range(len(pool)), repeat=3))[i::6]
     for seq in seqs:
